@@ -69,7 +69,9 @@ Inductive fkind :=
 | FAssert       (* undefined operand of add/sub/addm/subm, undefined array size, undefined qfree operand *)
 | FNoSlice      (* wait_all/wait_any on an address with no array *)
 | FRegIndex     (* register index outside 0..15 (cannot come from the binary format) *)
-| FType.        (* ordering comparison with an undefined register (blt/bge), Python TypeError *)
+| FType         (* ordering comparison with an undefined register (blt/bge), Python TypeError *)
+| FBook.        (* inconsistent qubit bookkeeping: qfree of a physical id that is not in the in-use set
+                   (set.remove -> KeyError), or no unused physical id found ("should never get here") *)
 
 Inductive outcome :=
 | Halt                         (* pc ran past the last instruction *)
@@ -113,14 +115,18 @@ Record state := mkState {
   arrs : list (Z * list cell);      (* Arrays._arrays of the application *)
   sregs : list (reg * Z);           (* shared memory registers (ret_reg) *)
   sarrs : list (Z * pub);           (* shared memory arrays (ret_arr) *)
-  um : list bool                    (* unit module: virtual id allocated?  length = capacity *)
+  um : list (option Z);             (* unit module: physical qubit mapped to each virtual id
+                                       (None = not allocated); length = capacity *)
+  used : list Z                     (* Executor._used_physical_qubit_addresses (a set) *)
 }.
 
-Definition init_state (cap : nat) : state := mkState [] [] [] [] (repeat false cap).
+Definition init_state (cap : nat) : state := mkState [] [] [] [] (repeat None cap) [].
 
-Definition with_regs (st : state) (x : list (reg * Z)) := mkState x (arrs st) (sregs st) (sarrs st) (um st).
-Definition with_sregs (st : state) (x : list (reg * Z)) := mkState (regs st) (arrs st) x (sarrs st) (um st).
-Definition with_um (st : state) (x : list bool) := mkState (regs st) (arrs st) (sregs st) (sarrs st) x.
+Definition with_regs (st : state) (x : list (reg * Z)) := mkState x (arrs st) (sregs st) (sarrs st) (um st) (used st).
+Definition with_sregs (st : state) (x : list (reg * Z)) := mkState (regs st) (arrs st) x (sarrs st) (um st) (used st).
+(* unit module and in-use set change together (qalloc / qfree) *)
+Definition with_um (st : state) (x : list (option Z)) (u : list Z) :=
+  mkState (regs st) (arrs st) (sregs st) (sarrs st) x u.
 
 (* arrays[a] is bound to a NEW list object l *)
 Definition bind_array (a : Z) (l : list cell) (st : state) : state :=
@@ -128,15 +134,15 @@ Definition bind_array (a : Z) (l : list cell) (st : state) : state :=
             | Some Live, Some old => upd Z.eqb a (Frozen old) (sarrs st)
             | _, _ => sarrs st
             end in
-  mkState (regs st) (upd Z.eqb a l (arrs st)) (sregs st) sa (um st).
+  mkState (regs st) (upd Z.eqb a l (arrs st)) (sregs st) sa (um st) (used st).
 
 (* the list object bound at a is mutated in place and now has contents l *)
 Definition write_array (a : Z) (l : list cell) (st : state) : state :=
-  mkState (regs st) (upd Z.eqb a l (arrs st)) (sregs st) (sarrs st) (um st).
+  mkState (regs st) (upd Z.eqb a l (arrs st)) (sregs st) (sarrs st) (um st) (used st).
 
 (* shared_memory._arrays[a] = arrays[a] (the same object) *)
 Definition publish (a : Z) (st : state) : state :=
-  mkState (regs st) (arrs st) (sregs st) (upd Z.eqb a Live (sarrs st)) (um st).
+  mkState (regs st) (arrs st) (sregs st) (upd Z.eqb a Live (sarrs st)) (um st) (used st).
 
 (* host-visible arrays *)
 Definition shm_arrays (st : state) : list (Z * list cell) :=
@@ -145,6 +151,11 @@ Definition shm_arrays (st : state) : list (Z * list cell) :=
                   | Frozen l => l
                   | Live => match find Z.eqb (fst ap) (arrs st) with Some l => l | None => [] end
                   end)) (sarrs st).
+
+(* the in-use set as a list without duplicates: set.add / set.remove / `in` *)
+Definition set_mem (x : Z) (l : list Z) : bool := existsb (Z.eqb x) l.
+Definition set_add (x : Z) (l : list Z) : list Z := if set_mem x l then l else l ++ [x].
+Definition set_remove (x : Z) (l : list Z) : list Z := filter (fun y => negb (Z.eqb x y)) l.
 
 Definition Zlen {A} (l : list A) : Z := Z.of_nat (List.length l).
 
